@@ -558,12 +558,15 @@ pub fn run(tier: Tier, _replay: Option<String>) -> i32 {
                 // early windows long enough to be estimated from (>= 3 draws) and a regular update
                 // period longer than them: the refresh at an early switch is then the only one
                 (0.6, 0.15, 6, 3, 5, 1.5),
+                // early windows longer than the configured main window: at the early -> main
+                // transition foreground, background and the configured size all differ
+                (0.5, 0.15, 2, 3, 1, 1.5),
             ],
             Tier::Thorough => {
                 let mut v = vec![];
                 for ew in [0.0, 0.3, 0.6] {
                     for ssw in [0.0, 0.15, 0.5, 1.0] {
-                        for (sf, esf) in [(1, 1), (3, 2), (6, 3), (80, 10)] {
+                        for (sf, esf) in [(1, 1), (3, 2), (2, 3), (6, 3), (80, 10)] {
                             for uf in [1, 3, 5] {
                                 for g in [1.0, 1.5, 2.0] {
                                     v.push((ew, ssw, sf, esf, uf, g));
